@@ -7,6 +7,7 @@ import (
 	"os"
 	"path/filepath"
 	"sort"
+	"time"
 
 	"github.com/biogo/biogo/morass"
 
@@ -310,6 +311,7 @@ func init() {
 		},
 		MaxPar:      16,
 		Cases:       func(r *obs.Run) int { return r.Share(c11EnumTotal) + r.Share(r.Pick(1500, 80000)) },
+		Setup:       func(r *obs.Run) { r.WatchDeadlock(5*time.Second, 2*time.Minute) },
 		Case:        c11Case,
 		MinDistinct: func(t string) int { return 3000 },
 		Floors: func(string) map[string]int64 {
